@@ -533,6 +533,10 @@ func GenSchedule(prop string, seed, run uint64, p *Profile) *Schedule {
 		if p.PExport > 0 && rng.Chance(p.PExport) {
 			b.ExportImport = true
 		}
+		// exports at the very instant a pending entry completes (still in the store until the next block's cleanup)
+		if p.PExport > 0 && (b.Dt.To == "unbonding" || b.Dt.To == "redelegation") && b.Dt.Off == 0 && rng.Chance(0.5) {
+			b.ExportImport = true
+		}
 		if rng.Chance(p.PCrash) {
 			b.Crash = []string{"before_commit", "after_commit"}[rng.Intn(2)]
 		}
